@@ -40,7 +40,7 @@ def oracle : List Sexp → Sexp
     | _, _, _ => app "err" [.atom "decode"]
   | [.atom "no-defect", e] =>
     match (Exp.dec e : Option (Exp (Ext Rat))) with
-    | some e => app "ok" [.atom (toString (Display.noDefectDeep e)), .atom (toString (Display.subDivDefect e))]
+    | some e => app "ok" [.atom (toString (Display.subDivDefect e))]
     | none => app "err" [.atom "decode"]
   | _ => app "err" [.atom "bad-request"]
 end Rooc.Drv.C12
